@@ -47,6 +47,7 @@ except (ValueError, RuntimeError):
     pass
 
 CURRENT = None          # the Scheduler of the execution in progress (one per process at a time)
+MAX_YIELDS = 2000       # horizon for polling loops: more yields than this in one execution = livelock
 
 
 class Abort(BaseException):
@@ -68,6 +69,31 @@ class CThread(object):
         self.tid = None
         self.os_thread = None
         self.name = name
+        self.daemon = bool(daemon)
+        self.can_run = None         # predicate of a thread in state "waiting" (lock, event, condition, sleep)
+        self.timed = False          # the wait has a timeout: it may also end when nothing else can run
+        self.woken_by_timeout = False
+
+    # threading.Thread API the library might use
+    def run(self):
+        if self.target is not None:
+            self.target(*self.args, **self.kwargs)
+
+    def setDaemon(self, flag):
+        self.daemon = bool(flag)
+
+    def isDaemon(self):
+        return self.daemon
+
+    def getName(self):
+        return self.name
+
+    def setName(self, name):
+        self.name = name
+
+    @property
+    def ident(self):
+        return None if self.os_thread is None else self.os_thread.ident
 
     # -- API used by the library
     def start(self):
@@ -86,6 +112,10 @@ class CThread(object):
         s = self.sched
         if self.state == "new":
             raise RuntimeError("cannot join thread before it is started")
+        if s is not CURRENT:
+            if self.state == "finished":
+                return
+            raise env.HarnessError("join of a controlled thread of an earlier execution that never finished")
         me = s.running
         if me is self:
             raise RuntimeError("cannot join current thread")
@@ -96,7 +126,7 @@ class CThread(object):
             me.state, me.join_target = "ready", None
 
     def is_alive(self):
-        return self.state in ("ready", "joining")
+        return self.state in ("ready", "joining", "waiting")
 
     # -- internals
     def _bootstrap(self):
@@ -105,7 +135,7 @@ class CThread(object):
         if s.aborted:
             return
         try:
-            self.target(*self.args, **self.kwargs)
+            self.run()
         except Abort:
             return
         except BaseException as exc:          # a real thread would print the traceback and die
@@ -128,6 +158,7 @@ class Scheduler(object):
         self.aborted = False
         self.error = None
         self.kinds = set()
+        self.livelock = False
 
     # -- bookkeeping
     def enabled_others(self, me):
@@ -137,10 +168,16 @@ class Scheduler(object):
                 continue
             if t.state == "ready" or (t.state == "joining" and t.join_target.state == "finished"):
                 out.append(t)
+            elif t.state == "waiting" and t.can_run():
+                out.append(t)
         return out
 
-    def _choose(self, label, me, still):
-        cands = ([me] if still else []) + self.enabled_others(me)
+    def timed_waiters(self):
+        return [t for t in self.threads if t.state == "waiting" and t.timed]
+
+    def _choose(self, label, me, still, cands=None):
+        if cands is None:
+            cands = ([me] if still else []) + self.enabled_others(me)
         i = len(self.points)
         if not cands:
             return None
@@ -165,6 +202,8 @@ class Scheduler(object):
 
     def _switch(self, me, nxt, wait=True):
         self.running = nxt
+        self.clock = getattr(self, "clock", 0) + 1
+        nxt.last_run = self.clock
         nxt.sem.release()
         if wait:
             me.sem.acquire()
@@ -185,16 +224,70 @@ class Scheduler(object):
             self._switch(me, nxt)
 
     def block(self, me):
-        """me cannot continue (join on an unfinished thread): somebody else must run."""
+        """me cannot continue (join on an unfinished thread, lock held by another thread, ...):
+        somebody else must run.  When nobody can, the timeout of a timed wait fires (lowest thread
+        id first); when there is none either, the execution is deadlocked."""
         nxt = self._choose("blocked", me, False)
+        if nxt is None:
+            nxt = self._fire_timeout()
+            if nxt is me:
+                return
         if nxt is None:
             self.deadlock = True
             self._abort()
             raise Abort()
         self._switch(me, nxt)
 
+    def _fire_timeout(self):
+        tw = self.timed_waiters()
+        if not tw:
+            return None
+        t = tw[0]
+        t.woken_by_timeout = True
+        t.can_run = lambda: True
+        self.timeouts_fired = getattr(self, "timeouts_fired", 0) + 1
+        return t
+
+    def wait(self, me, pred, timed=False):
+        """The running thread waits until pred() holds (evaluated by the scheduler whenever it looks for
+        enabled threads).  Returns True when pred held at wake-up, False when a timeout ended the wait."""
+        me.state, me.can_run, me.timed, me.woken_by_timeout = "waiting", pred, timed, False
+        try:
+            self.block(me)
+        finally:
+            timeout = me.woken_by_timeout
+            me.state, me.can_run, me.timed, me.woken_by_timeout = "ready", None, False, False
+        return not timeout
+
+    def yield_(self, label="yield"):
+        """The running thread offers the processor (sleep, spin-wait): another enabled thread runs if
+        there is one - at no preemption cost - and the yielding thread stays enabled."""
+        me = self.running
+        if me is None or self.aborted:
+            if self.aborted:
+                raise Abort()
+            return
+        self.yields = getattr(self, "yields", 0) + 1
+        if self.yields > MAX_YIELDS:
+            self.livelock = True
+            self._abort()
+            raise Abort()
+        others = self.enabled_others(me)
+        if not others:
+            return
+        # least recently run first, so that two polling threads cannot starve a third one
+        others.sort(key=lambda t: (getattr(t, "last_run", 0), t.tid))
+        me.state, me.can_run, me.timed = "waiting", (lambda: True), False
+        try:
+            nxt = self._choose(label, me, False, cands=others)
+            self._switch(me, nxt)
+        finally:
+            me.state, me.can_run = "ready", None
+
     def exit(self, me):
         nxt = self._choose("thread.exit", me, False)
+        if nxt is None:
+            nxt = self._fire_timeout()
         if nxt is None:
             if any(t.state != "finished" for t in self.threads):
                 self.deadlock = True
@@ -312,9 +405,306 @@ class LoadingTable(TableMixin, dict):
     _table_name = "loading"
 
 
+# --------------------------------------------------------------------------- controlled synchronisation
+#
+# Stand-ins for threading.Lock / RLock / Event / Condition / Semaphore.  Under the baton-passing scheduler a
+# thread that blocked on a *real* lock held by a descheduled thread would hang the execution; these model
+# blocking instead: acquiring is a scheduling point, a thread that cannot proceed is disabled until it can,
+# "nobody enabled" is a deadlock.  A wait with a timeout ends unsuccessfully only when no thread can run at all
+# (the timer lands last; an earlier expiry is not explored).  Outside a controlled execution (module import,
+# harness set-up) they behave like uncontended single-threaded primitives.
+
+def _cur():
+    s = CURRENT
+    if s is None or s.running is None or s.aborted:
+        if s is not None and s.aborted:
+            raise Abort()
+        return None, None
+    return s, s.running
+
+
+def _timed(blocking, timeout):
+    return timeout is not None and timeout >= 0
+
+
+class CLock(object):
+    _reentrant = False
+
+    def __init__(self):
+        self.owner = None
+        self.count = 0
+
+    def acquire(self, blocking=True, timeout=-1):
+        s, me = _cur()
+        if s is None:
+            if self.owner is None or (self._reentrant and self.owner == "outside"):
+                self.owner, self.count = "outside", self.count + 1
+                return True
+            if not blocking:
+                return False
+            raise env.HarnessError("lock acquired outside a controlled execution while it is held")
+        s.point("lock.acquire")
+        if self.owner is None or (self._reentrant and self.owner is me):
+            self.owner, self.count = me, self.count + 1
+            return True
+        if not blocking:
+            return False
+        if s.wait(me, lambda: self.owner is None, _timed(blocking, timeout)):
+            self.owner, self.count = me, 1
+            return True
+        return False
+
+    def release(self):
+        s, me = _cur()
+        if self.owner is None:
+            raise RuntimeError("release unlocked lock")
+        if self._reentrant and s is not None and self.owner is not me:
+            raise RuntimeError("cannot release un-acquired lock")
+        if s is not None:
+            s.point("lock.release")
+        self.count -= 1
+        if self.count <= 0:
+            self.owner, self.count = None, 0
+
+    def locked(self):
+        return self.owner is not None
+
+    def __enter__(self):
+        self.acquire()
+        return self
+
+    def __exit__(self, *exc):
+        self.release()
+
+    # used by CCondition
+    def _release_all(self):
+        n, self.owner, self.count = self.count, None, 0
+        return n
+
+    def _is_owned(self, me):
+        return self.owner is me or (me is None and self.owner == "outside")
+
+
+class CRLock(CLock):
+    _reentrant = True
+
+
+class CEvent(object):
+    def __init__(self):
+        self.flag = False
+
+    def is_set(self):
+        s, me = _cur()
+        if s is not None:
+            s.point("event.is_set")
+        return self.flag
+
+    isSet = is_set
+
+    def set(self):
+        s, me = _cur()
+        if s is not None:
+            s.point("event.set")
+        self.flag = True
+
+    def clear(self):
+        s, me = _cur()
+        if s is not None:
+            s.point("event.clear")
+        self.flag = False
+
+    def wait(self, timeout=None):
+        s, me = _cur()
+        if s is None:
+            if self.flag or timeout is not None:
+                return self.flag
+            raise env.HarnessError("Event.wait outside a controlled execution would block for ever")
+        s.point("event.wait")
+        if self.flag:
+            return True
+        return s.wait(me, lambda: self.flag, timeout is not None)
+
+
+class CCondition(object):
+    def __init__(self, lock=None):
+        self.lock = lock if lock is not None else CRLock()
+        if not isinstance(self.lock, CLock):
+            raise env.HarnessError("Condition over a lock that is not controlled")
+        self.waiters = []
+        self.acquire, self.release = self.lock.acquire, self.lock.release
+
+    def __enter__(self):
+        return self.lock.__enter__()
+
+    def __exit__(self, *exc):
+        return self.lock.__exit__(*exc)
+
+    def wait(self, timeout=None):
+        s, me = _cur()
+        if not self.lock._is_owned(me):
+            raise RuntimeError("cannot wait on un-acquired lock")
+        if s is None:
+            if timeout is not None:
+                return False
+            raise env.HarnessError("Condition.wait outside a controlled execution would block for ever")
+        s.point("cond.wait")
+        rec = {"notified": False}
+        self.waiters.append(rec)
+        depth = self.lock._release_all()
+        ok = s.wait(me, lambda: rec["notified"], timeout is not None)
+        if not ok and rec in self.waiters:
+            self.waiters.remove(rec)
+        if self.lock.owner is not None:
+            s.wait(me, lambda: self.lock.owner is None, False)
+        self.lock.owner, self.lock.count = me, depth
+        return ok
+
+    def wait_for(self, predicate, timeout=None):
+        result = predicate()
+        while not result:
+            if not self.wait(timeout) and timeout is not None:
+                return predicate()
+            result = predicate()
+        return result
+
+    def notify(self, n=1):
+        s, me = _cur()
+        if not self.lock._is_owned(me):
+            raise RuntimeError("cannot notify on un-acquired lock")
+        if s is not None:
+            s.point("cond.notify")
+        for rec in self.waiters[:n]:
+            rec["notified"] = True
+        del self.waiters[:n]
+
+    def notify_all(self):
+        self.notify(len(self.waiters))
+
+    notifyAll = notify_all
+
+
+class CSemaphore(object):
+    _bounded = False
+
+    def __init__(self, value=1):
+        if value < 0:
+            raise ValueError("semaphore initial value must be >= 0")
+        self.value = self.initial = value
+
+    def acquire(self, blocking=True, timeout=None):
+        s, me = _cur()
+        if s is None:
+            if self.value > 0:
+                self.value -= 1
+                return True
+            if not blocking:
+                return False
+            raise env.HarnessError("semaphore acquired outside a controlled execution while it is exhausted")
+        s.point("sem.acquire")
+        if self.value > 0:
+            self.value -= 1
+            return True
+        if not blocking:
+            return False
+        if s.wait(me, lambda: self.value > 0, timeout is not None):
+            self.value -= 1
+            return True
+        return False
+
+    def release(self, n=1):
+        s, me = _cur()
+        if self._bounded and self.value + n > self.initial:
+            raise ValueError("Semaphore released too many times")
+        if s is not None:
+            s.point("sem.release")
+        self.value += n
+
+    def __enter__(self):
+        self.acquire()
+        return self
+
+    def __exit__(self, *exc):
+        self.release()
+
+
+class CBoundedSemaphore(CSemaphore):
+    _bounded = True
+
+
+_REAL_KINDS = None
+
+
+def controlled_twin(obj):
+    """A controlled stand-in for a real synchronisation object created before the shim was in place (module or
+    class level `threading.Lock()`), or None when obj is none of them."""
+    global _REAL_KINDS
+    if _REAL_KINDS is None:
+        _REAL_KINDS = [(type(_threading.Lock()), CLock), (type(_threading.RLock()), CRLock),
+                       (_threading.Condition, None), (_threading.Event, CEvent),
+                       (_threading.BoundedSemaphore, None), (_threading.Semaphore, None)]
+    for real, twin in _REAL_KINDS:
+        if type(obj) is real or (isinstance(real, type) and isinstance(obj, real) and real.__module__ == "threading"):
+            if real is _threading.Condition:
+                return CCondition(controlled_twin(obj._lock))
+            if real is _threading.BoundedSemaphore:
+                return CBoundedSemaphore(obj._initial_value)
+            if real is _threading.Semaphore:
+                return CSemaphore(obj._value)
+            return twin()
+    return None
+
+
+def adopt_primitives(*holders):
+    """Replace real synchronisation objects found in the namespaces of the given modules / classes / instances by
+    controlled ones (fresh, i.e. unlocked).  Returns the number replaced."""
+    n = 0
+    for h in holders:
+        ns = getattr(h, "__dict__", None)
+        if ns is None:
+            continue
+        for k, v in list(ns.items()):
+            if isinstance(v, (CLock, CEvent, CCondition, CSemaphore)):
+                twin = type(v)(*(([v.initial] if isinstance(v, CSemaphore) else []))) if not isinstance(v, CCondition) \
+                    else CCondition(type(v.lock)())
+            else:
+                try:
+                    twin = controlled_twin(v)
+                except Exception:
+                    twin = None
+            if twin is not None:
+                try:
+                    setattr(h, k, twin)
+                    n += 1
+                except (AttributeError, TypeError):
+                    pass
+    return n
+
+
+class TimeShim(object):
+    """Replaces the `time` module inside the loader modules: sleep() offers the processor to the other
+    threads instead of waiting (polling loops stay finite: see Scheduler.yield_)."""
+
+    def __init__(self, real):
+        self._real = real
+
+    def sleep(self, seconds=0):
+        s = CURRENT
+        if s is not None and s.running is not None:
+            s.yield_("sleep")
+
+    def __getattr__(self, name):
+        return getattr(self._real, name)
+
+
 class ThreadingShim(object):
     """Replaces the `threading` module inside odml.terminology / odml.templates."""
     Thread = CThread
+    Lock = CLock
+    RLock = CRLock
+    Event = CEvent
+    Condition = CCondition
+    Semaphore = CSemaphore
+    BoundedSemaphore = CBoundedSemaphore
 
     def __getattr__(self, name):
         return getattr(_threading, name)
